@@ -332,6 +332,23 @@ type replayFile struct {
 	Case     json.RawMessage `json:"case"`
 }
 
+// Current notes the case that is about to run in the file named by
+// $VERIF_CURRENT (set by the driver for race-detector builds). When the
+// process is killed by the race detector (halt_on_error) the driver turns that
+// file into the replay file: the last noted case is the one that raced.
+func (r *Run) Current(kind string, c interface{}) {
+	p := os.Getenv("VERIF_CURRENT")
+	if p == "" {
+		return
+	}
+	cb, err := json.Marshal(c)
+	if err != nil {
+		return
+	}
+	b, _ := json.Marshal(replayFile{Property: r.ID, Kind: kind, Msg: "data race reported by the Go race detector while this case was running", Case: cb})
+	os.WriteFile(p, b, 0o644)
+}
+
 // Check records a failure if f is non-nil and reports whether the case passed.
 func (r *Run) Check(f *Fail) bool {
 	if f == nil {
